@@ -1394,6 +1394,37 @@ class Interp:
             init = [n for n in cdef.body if isinstance(n, ast.FunctionDef) and n.name == '__init__']
             if init:
                 self.call_function(init[0], [obj] + args, kw)
+            elif any((isinstance(d_, ast.Name) and d_.id == 'dataclass') or (isinstance(d_, ast.Attribute) and d_.attr == 'dataclass') or
+                     (isinstance(d_, ast.Call) and ((isinstance(d_.func, ast.Name) and d_.func.id == 'dataclass') or (isinstance(d_.func, ast.Attribute) and d_.func.attr == 'dataclass')))
+                     for d_ in cdef.decorator_list):
+                # the generated __init__ of a dataclass: fields in order, positional / keyword arguments, defaults, default_factory called per instance
+                flds = [n_ for n_ in cdef.body if isinstance(n_, ast.AnnAssign) and isinstance(n_.target, ast.Name) and 'ClassVar' not in ast.unparse(n_.annotation)]
+                given = dict(zip([n_.target.id for n_ in flds], args))
+                if len(args) > len(flds):
+                    raise PyError('TypeError', e.lineno)
+                given.update(kw)
+                for n_ in flds:
+                    nm_ = n_.target.id
+                    if nm_ in given:
+                        obj.attrs[nm_] = given[nm_]; continue
+                    v_ = n_.value
+                    if v_ is None:
+                        raise PyError('TypeError', e.lineno)
+                    if isinstance(v_, ast.Call) and isinstance(v_.func, ast.Name) and v_.func.id == 'field':
+                        fk = {k_.arg: k_.value for k_ in v_.keywords}
+                        if 'default_factory' in fk:
+                            c_ = ast.Call(func=fk['default_factory'], args=[], keywords=[])
+                            ast.copy_location(c_, v_); ast.fix_missing_locations(c_)
+                            obj.attrs[nm_] = self.expr(c_, {})
+                        elif 'default' in fk:
+                            obj.attrs[nm_] = self.expr(fk['default'], {})
+                        else:
+                            raise PyError('TypeError', e.lineno)
+                    else:
+                        obj.attrs[nm_] = self.expr(v_, {})
+                post = [n_ for n_ in cdef.body if isinstance(n_, ast.FunctionDef) and n_.name == '__post_init__']
+                if post:
+                    self.call_function(post[0], [obj])
             return obj
         if isinstance(f, ast.Name) and f.id in self.functions and f.id not in env:
             return self.call_function(self.functions[f.id], args, kw)
